@@ -63,7 +63,8 @@ inductive Discharge
   | hashValueDiscarded
   /-- a module outside the import closure of session/environment.py, session/ray_envs.py and game/game.py (Gen fact) -/
   | offline
-  /-- `for x in sorted(s)` -/
+  /-- `sorted(s)` (Gen fact `sortedConsumer`: the set is the argument of the built-in sort): the result is a function of the
+  ELEMENTS, not of the iteration order (lemma `sortedIter_invariant`) -/
   | setSorted
   /-- set → loop → list → `set(...)` -/
   | setToSet
@@ -73,7 +74,7 @@ inductive Discharge
   | setLengthOnly
   /-- a dict is built from the set and only read by key -/
   | setDictByKey
-  /-- the set is never written (Gen fact `neverWritten`: no assignment, mutator call or constructor keyword of that
+  /-- the literal `set()` handed to a call (Gen fact `emptySetLiteral`), or: the set is never written (Gen fact `neverWritten`: no assignment, mutator call or constructor keyword of that
   attribute name in the tree): always empty -/
   | setEmpty
   /-- a set display with one constant element (Gen fact `singletonDisplay`) -/
@@ -102,7 +103,7 @@ inductive Basis | lemma | mechanical | trusted | openFinding
 
 def Discharge.basis : Discharge → Basis
   | .fixedWidthReading | .fixedLenSecret | .clockNotRead | .seededRng | .seeding | .unseededByConfig | .offline | .setDeclCovered | .setEmpty
-  | .setSingleton | .hashValueDiscarded => .mechanical
+  | .setSingleton | .hashValueDiscarded | .setSorted => .mechanical
   | .hashNotIterated | .setMembershipOnly | .setIntHash | .idTextEqOnly => .trusted
   | _ => .lemma
 
@@ -150,7 +151,10 @@ def Discharge.supportedBy : Discharge → Fact → Bool
   | .idTextEqOnly, _ => false
   | .setSingleton, .singletonDisplay => true
   | .setSingleton, _ => false
+  | .setSorted, .sortedConsumer => true
+  | .setSorted, _ => false
   | .setEmpty, .neverWritten => true
+  | .setEmpty, .emptySetLiteral => true
   | .setEmpty, .declUses _ => true      -- the declaration; its iteration carries `neverWritten`
   | .setEmpty, _ => false
   | _, _ => true
@@ -266,6 +270,10 @@ def table : List (Site × Discharge) := [
   (⟨"__init__.py", "_PrimaitePaths.generate_episode_log_file_path", .clock, "datetime.datetime.now()", 0⟩, .clockNotRead),
   (⟨"game/agent/scripted_agents/TAP001.py", "TAP001._select_target_ip", .pyRandom, "random.choice(self.config.agent_settings.target_ips)", 0⟩, .seededRng),
   (⟨"game/agent/scripted_agents/TAP001.py", "TAP001._update_next_scan_target", .pyRandom, "random.randint(0, len(self.config.agent_settings.kill_chain.PROPAGATE.network_addresses...", 0⟩, .seededRng),
+  (⟨"game/agent/scripted_agents/TAP003.py", "TAP003.AgentSettingsSchema.check_network_knowledge_covers_targets", .setEscape, "call get <- set()", 0⟩, .setEmpty),
+  (⟨"game/agent/scripted_agents/TAP003.py", "TAP003.AgentSettingsSchema.check_network_knowledge_covers_targets", .setEscape, "call get <- set()", 1⟩, .setEmpty),
+  (⟨"game/agent/scripted_agents/TAP003.py", "TAP003.AgentSettingsSchema.check_network_knowledge_covers_targets", .setIter, "sorted <- keys - set(credentials.get(host, {}))", 0⟩, .setSorted),
+  (⟨"game/agent/scripted_agents/TAP003.py", "TAP003.AgentSettingsSchema.check_network_knowledge_covers_targets", .setIter, "sorted <- start_nodes", 0⟩, .setSorted),
   (⟨"game/agent/scripted_agents/abstract_tap.py", "AbstractTAP._select_start_node", .pyRandom, "random.choice(self.config.agent_settings.starting_nodes)", 0⟩, .seededRng),
   (⟨"game/agent/scripted_agents/abstract_tap.py", "AbstractTAP._set_next_execution_timestep", .pyRandom, "random.randint(-self.config.agent_settings.variance, self.config.agent_settings.variance)", 0⟩, .seededRng),
   (⟨"game/agent/scripted_agents/probabilistic_agent.py", "ProbabilisticAgent", .npRandom, "np.random.default_rng(np.random.randint(0, 65535))", 0⟩, .seededRng),
